@@ -681,13 +681,15 @@ def massesGet (i : Nat) : M (List (Option Rat)) := do
 def pbcSet (i : Nat) (value : List Bool) : M Unit :=
   if value.length ≠ 3 then fail .assert else modifySys i (fun y => { y with pbc := value })
 
+def pushSys (y : SysObj) : M Nat := fun s => (.ok s.syss.length, { s with syss := s.syss ++ [y] })
+
 /-- `System(atoms=…, box=…, pbc=…, symbols=…, masses=…)`. -/
 def mkSys (o : Nat) (box : Box Rat) (pbc : List Bool) (symbols : Option (List (Option String)))
     (masses : Option (List (Option Rat))) : M Nat :=
   atomic do
     let ms := masses.getD []
     let sy := symbols.getD (List.replicate ms.length none)
-    let i ← (fun s => (.ok s.syss.length, { s with syss := s.syss ++ [⟨o, box, [true, true, true], [], []⟩] }) : M Nat)
+    let i ← pushSys ⟨o, box, [true, true, true], [], []⟩
     pbcSet i pbc
     symbolsSet i sy
     massesSet i ms
